@@ -37,13 +37,13 @@ type aliasKey struct {
 }
 
 type Alias struct {
-	w        *World
-	sw       *ssaWorld
-	memo     map[aliasKey]*aliasSummary
-	inprog   map[aliasKey]bool
-	Visited  map[*ssa.Function]bool
-	Marked   int
-	changed  bool
+	w          *World
+	sw         *ssaWorld
+	memo       map[aliasKey]*aliasSummary
+	inprog     map[aliasKey]bool
+	Visited    map[*ssa.Function]bool
+	Marked     int
+	changed    bool
 	Unmodelled map[string]token.Pos
 }
 
@@ -429,95 +429,95 @@ type stdModel struct {
 }
 
 var stdModels = map[string]stdModel{
-	"bytes.NewBuffer":              {all: "ret"},
-	"bytes.NewReader":              {all: "ret"},
-	"(*bytes.Buffer).Bytes":        {all: "ret"},
-	"(*bytes.Buffer).Next":         {all: "ret"},
-	"(*bytes.Buffer).Write":        {args: map[int]string{0: "none", 1: "none"}},
-	"(*bytes.Buffer).WriteByte":    {all: "none"},
-	"(*bytes.Buffer).WriteString":  {all: "none"},
-	"(*bytes.Buffer).Read":         {args: map[int]string{0: "none", 1: "none"}},
-	"(*bytes.Buffer).ReadByte":     {all: "none"},
-	"(*bytes.Buffer).Len":          {all: "none"},
-	"(*bytes.Buffer).Reset":        {all: "none"},
-	"(*bytes.Buffer).String":       {all: "none"},
-	"bytes.Equal":                  {all: "none"},
-	"bytes.Repeat":                 {all: "none"},
-	"bytes.NewBufferString":        {all: "none"},
-	"(encoding/binary.bigEndian).Uint16":       {all: "none"},
-	"(encoding/binary.bigEndian).Uint32":       {all: "none"},
-	"(encoding/binary.bigEndian).Uint64":       {all: "none"},
-	"(encoding/binary.bigEndian).PutUint16":    {all: "none"},
-	"(encoding/binary.bigEndian).PutUint32":    {all: "none"},
-	"(encoding/binary.bigEndian).PutUint64":    {all: "none"},
-	"(encoding/binary.littleEndian).Uint16":    {all: "none"},
-	"(encoding/binary.littleEndian).Uint32":    {all: "none"},
-	"(encoding/binary.littleEndian).Uint64":    {all: "none"},
-	"(encoding/binary.littleEndian).PutUint16": {all: "none"},
-	"(encoding/binary.littleEndian).PutUint32": {all: "none"},
-	"(encoding/binary.littleEndian).PutUint64": {all: "none"},
-	"encoding/binary.Read":         {all: "none"},
-	"encoding/binary.Write":        {all: "none"},
-	"encoding/binary.Size":         {all: "none"},
-	"(net.IP).To4":                 {all: "ret"},
-	"(net.IP).To16":                {all: "ret"},
-	"(net.IP).String":              {all: "none"},
-	"(net.IP).Equal":               {all: "none"},
-	"(net.HardwareAddr).String":    {all: "none"},
-	"net.IPv4":                     {all: "none"},
-	"net.ParseIP":                  {all: "none"},
-	"errors.New":                   {all: "none"},
-	"fmt.Errorf":                   {all: "none"},
-	"fmt.Sprintf":                  {all: "none"},
-	"fmt.Sprint":                   {all: "none"},
-	"fmt.Println":                  {all: "none"},
-	"fmt.Printf":                   {all: "none"},
-	"log.Printf":                   {all: "none"},
-	"log.Println":                  {all: "none"},
-	"log.Panicf":                   {all: "none"},
-	"log.Fatalf":                   {all: "none"},
-	"strings.ToUpper":              {all: "none"},
-	"strings.Contains":             {all: "none"},
-	"reflect.ValueOf":              {all: "ret"},
-	"(reflect.Value).Interface":    {all: "ret"},
-	"(reflect.Value).Bytes":        {all: "ret"},
-	"(reflect.Value).Kind":         {all: "none"},
-	"(reflect.Value).Int":          {all: "none"},
-	"(reflect.Value).Uint":         {all: "none"},
-	"(*math/big.Int).SetBytes":     {args: map[int]string{0: "mut", 1: "none"}},
-	"(*math/big.Int).SetInt64":     {args: map[int]string{0: "mut"}},
-	"(*math/big.Int).SetUint64":    {args: map[int]string{0: "mut"}},
-	"(*math/big.Int).Lsh":          {args: map[int]string{0: "mutret", 1: "none"}},
-	"(*math/big.Int).Rsh":          {args: map[int]string{0: "mutret", 1: "none"}},
-	"(*math/big.Int).Add":          {args: map[int]string{0: "mutret", 1: "none", 2: "none"}},
-	"(*math/big.Int).Sub":          {args: map[int]string{0: "mutret", 1: "none", 2: "none"}},
-	"(*math/big.Int).And":          {args: map[int]string{0: "mutret", 1: "none", 2: "none"}},
-	"(*math/big.Int).Or":           {args: map[int]string{0: "mutret", 1: "none", 2: "none"}},
-	"(*math/big.Int).Set":          {args: map[int]string{0: "mutret", 1: "none"}},
-	"(*math/big.Int).Bytes":        {all: "none"},
-	"(*math/big.Int).BitLen":       {all: "none"},
-	"(*math/big.Int).Cmp":          {all: "none"},
-	"(*math/big.Int).Sign":         {all: "none"},
-	"(*math/big.Int).String":       {all: "none"},
-	"(*math/big.Int).Int64":        {all: "none"},
-	"(*math/big.Int).Uint64":       {all: "none"},
-	"(*math/big.Int).FillBytes":    {args: map[int]string{0: "none", 1: "mutret"}},
-	"math/big.NewInt":              {all: "none"},
-	"sync/atomic.AddUint32":        {all: "mut"},
-	"sync/atomic.LoadUint32":       {all: "none"},
-	"sync/atomic.StoreUint32":      {all: "mut"},
-	"sync/atomic.CompareAndSwapUint32": {all: "mut"},
-	"golang.org/x/exp/maps.Values": {all: "ret"},
+	"bytes.NewBuffer":                             {all: "ret"},
+	"bytes.NewReader":                             {all: "ret"},
+	"(*bytes.Buffer).Bytes":                       {all: "ret"},
+	"(*bytes.Buffer).Next":                        {all: "ret"},
+	"(*bytes.Buffer).Write":                       {args: map[int]string{0: "none", 1: "none"}},
+	"(*bytes.Buffer).WriteByte":                   {all: "none"},
+	"(*bytes.Buffer).WriteString":                 {all: "none"},
+	"(*bytes.Buffer).Read":                        {args: map[int]string{0: "none", 1: "none"}},
+	"(*bytes.Buffer).ReadByte":                    {all: "none"},
+	"(*bytes.Buffer).Len":                         {all: "none"},
+	"(*bytes.Buffer).Reset":                       {all: "none"},
+	"(*bytes.Buffer).String":                      {all: "none"},
+	"bytes.Equal":                                 {all: "none"},
+	"bytes.Repeat":                                {all: "none"},
+	"bytes.NewBufferString":                       {all: "none"},
+	"(encoding/binary.bigEndian).Uint16":          {all: "none"},
+	"(encoding/binary.bigEndian).Uint32":          {all: "none"},
+	"(encoding/binary.bigEndian).Uint64":          {all: "none"},
+	"(encoding/binary.bigEndian).PutUint16":       {all: "none"},
+	"(encoding/binary.bigEndian).PutUint32":       {all: "none"},
+	"(encoding/binary.bigEndian).PutUint64":       {all: "none"},
+	"(encoding/binary.littleEndian).Uint16":       {all: "none"},
+	"(encoding/binary.littleEndian).Uint32":       {all: "none"},
+	"(encoding/binary.littleEndian).Uint64":       {all: "none"},
+	"(encoding/binary.littleEndian).PutUint16":    {all: "none"},
+	"(encoding/binary.littleEndian).PutUint32":    {all: "none"},
+	"(encoding/binary.littleEndian).PutUint64":    {all: "none"},
+	"encoding/binary.Read":                        {all: "none"},
+	"encoding/binary.Write":                       {all: "none"},
+	"encoding/binary.Size":                        {all: "none"},
+	"(net.IP).To4":                                {all: "ret"},
+	"(net.IP).To16":                               {all: "ret"},
+	"(net.IP).String":                             {all: "none"},
+	"(net.IP).Equal":                              {all: "none"},
+	"(net.HardwareAddr).String":                   {all: "none"},
+	"net.IPv4":                                    {all: "none"},
+	"net.ParseIP":                                 {all: "none"},
+	"errors.New":                                  {all: "none"},
+	"fmt.Errorf":                                  {all: "none"},
+	"fmt.Sprintf":                                 {all: "none"},
+	"fmt.Sprint":                                  {all: "none"},
+	"fmt.Println":                                 {all: "none"},
+	"fmt.Printf":                                  {all: "none"},
+	"log.Printf":                                  {all: "none"},
+	"log.Println":                                 {all: "none"},
+	"log.Panicf":                                  {all: "none"},
+	"log.Fatalf":                                  {all: "none"},
+	"strings.ToUpper":                             {all: "none"},
+	"strings.Contains":                            {all: "none"},
+	"reflect.ValueOf":                             {all: "ret"},
+	"(reflect.Value).Interface":                   {all: "ret"},
+	"(reflect.Value).Bytes":                       {all: "ret"},
+	"(reflect.Value).Kind":                        {all: "none"},
+	"(reflect.Value).Int":                         {all: "none"},
+	"(reflect.Value).Uint":                        {all: "none"},
+	"(*math/big.Int).SetBytes":                    {args: map[int]string{0: "mut", 1: "none"}},
+	"(*math/big.Int).SetInt64":                    {args: map[int]string{0: "mut"}},
+	"(*math/big.Int).SetUint64":                   {args: map[int]string{0: "mut"}},
+	"(*math/big.Int).Lsh":                         {args: map[int]string{0: "mutret", 1: "none"}},
+	"(*math/big.Int).Rsh":                         {args: map[int]string{0: "mutret", 1: "none"}},
+	"(*math/big.Int).Add":                         {args: map[int]string{0: "mutret", 1: "none", 2: "none"}},
+	"(*math/big.Int).Sub":                         {args: map[int]string{0: "mutret", 1: "none", 2: "none"}},
+	"(*math/big.Int).And":                         {args: map[int]string{0: "mutret", 1: "none", 2: "none"}},
+	"(*math/big.Int).Or":                          {args: map[int]string{0: "mutret", 1: "none", 2: "none"}},
+	"(*math/big.Int).Set":                         {args: map[int]string{0: "mutret", 1: "none"}},
+	"(*math/big.Int).Bytes":                       {all: "none"},
+	"(*math/big.Int).BitLen":                      {all: "none"},
+	"(*math/big.Int).Cmp":                         {all: "none"},
+	"(*math/big.Int).Sign":                        {all: "none"},
+	"(*math/big.Int).String":                      {all: "none"},
+	"(*math/big.Int).Int64":                       {all: "none"},
+	"(*math/big.Int).Uint64":                      {all: "none"},
+	"(*math/big.Int).FillBytes":                   {args: map[int]string{0: "none", 1: "mutret"}},
+	"math/big.NewInt":                             {all: "none"},
+	"sync/atomic.AddUint32":                       {all: "mut"},
+	"sync/atomic.LoadUint32":                      {all: "none"},
+	"sync/atomic.StoreUint32":                     {all: "mut"},
+	"sync/atomic.CompareAndSwapUint32":            {all: "mut"},
+	"golang.org/x/exp/maps.Values":                {all: "ret"},
 	"(*github.com/sirupsen/logrus.Logger).Debugf": {all: "none"},
-	"github.com/sirupsen/logrus.Debugf":  {all: "none"},
-	"github.com/sirupsen/logrus.Infof":   {all: "none"},
-	"github.com/sirupsen/logrus.Errorf":  {all: "none"},
-	"github.com/sirupsen/logrus.Warnln":  {all: "none"},
-	"github.com/sirupsen/logrus.Printf":  {all: "none"},
-	"github.com/sirupsen/logrus.Fatalf":  {all: "none"},
-	"time.Now":                      {all: "none"},
-	"(time.Time).Add":               {all: "none"},
-	"math/rand.Uint32":              {all: "none"},
+	"github.com/sirupsen/logrus.Debugf":           {all: "none"},
+	"github.com/sirupsen/logrus.Infof":            {all: "none"},
+	"github.com/sirupsen/logrus.Errorf":           {all: "none"},
+	"github.com/sirupsen/logrus.Warnln":           {all: "none"},
+	"github.com/sirupsen/logrus.Printf":           {all: "none"},
+	"github.com/sirupsen/logrus.Fatalf":           {all: "none"},
+	"time.Now":                                    {all: "none"},
+	"(time.Time).Add":                             {all: "none"},
+	"math/rand.Uint32":                            {all: "none"},
 }
 
 func fnName(f *ssa.Function) string {
@@ -535,7 +535,9 @@ func (a *Alias) callFlow(fn *ssa.Function, site ssa.CallInstruction, tainted map
 	c := site.Common()
 	changed := false
 	res, _ := site.(ssa.Value)
-	isT := func(v ssa.Value) bool { return v != nil && (tainted[v] || carrier[root(v, 0)] && pointerBearing(v.Type())) }
+	isT := func(v ssa.Value) bool {
+		return v != nil && (tainted[v] || carrier[root(v, 0)] && pointerBearing(v.Type()))
+	}
 
 	// builtins
 	if b, ok := c.Value.(*ssa.Builtin); ok {
